@@ -588,6 +588,12 @@ func entCompare(out *Out, c *entCase, real *entExpansion) int {
 			}
 		}
 		entityKeys := map[string]bool{}
+		shardKeys := map[string]bool{}
+		for i, k := range c.Src.Keys {
+			if k.Shard && i < len(want.Keys) {
+				shardKeys[want.Keys[i].Name] = true
+			}
+		}
 		primary := map[string]bool{}
 		var pkNames []string
 		for _, k := range want.Keys {
@@ -634,6 +640,10 @@ func entCompare(out *Out, c *entCase, real *entExpansion) int {
 			for _, p := range rm.Params {
 				if !entityKeys[p] {
 					V(tag+"|path-params|not-a-key", "%s path %s has parameter %s which is not a key of the entity", rm.Name, rm.Path, p)
+				} else if (wm.Role == "get" || wm.Role == "events") && !primary[p] && !shardKeys[p] {
+					// "primary-key fields ... as THE path parameters of Get and Events": a key that is neither primary nor a
+					// shard key (EntityKey.shard_key: "part of the URL") is no path parameter
+					V(tag+"|path-params|not-primary", "%s path %s has parameter %s, a key that is neither primary nor a shard key (declared primary keys %v)", rm.Name, rm.Path, p, pkNames)
 				}
 			}
 			if !reflect.DeepEqual(append([]string{}, rm.Params...), append([]string{}, wm.Params...)) && !(len(rm.Params) == 0 && len(wm.Params) == 0) {
